@@ -8,7 +8,7 @@
 From Coq Require Import String List NArith ZArith Bool.
 From J5V.lib Require Import Text Outcome.
 From J5V.model Require Import BclLexer BclParser BclFmt BclCli.
-From J5V.proofs Require Import BclPosProofs BclLexerProofs BclParserProofs BclFmtProofs BclFmtLitProofs BclReflowProofs BclLexLitProofs BclFmtSeqProofs BclFragWfProofs BclFmtLineProofs BclWalkBackProofs BclFmtFileProofs BclDescGapProofs BclFmtRoundProofs BclFmtIdemProofs BclDocProofs BclUtf8Proofs BclRuneClosedProofs BclFmtBytesProofs BclDocBytesProofs BclCliProofs.
+From J5V.proofs Require Import BclPosProofs BclLexerProofs BclParserProofs BclFmtProofs BclFmtLitProofs BclReflowProofs BclLexLitProofs BclFmtSeqProofs BclFragWfProofs BclFmtLineProofs BclWalkBackProofs BclFmtFileProofs BclDescGapProofs BclFmtRoundProofs BclFmtIdemProofs BclDocProofs BclUtf8Proofs BclRuneClosedProofs BclFmtBytesProofs BclDocBytesProofs BclCliProofs BclIdentExactProofs.
 (* after the proofs: doc_of / value_doc / tag_doc below are the declarative ones of model/BclDoc.v *)
 From J5V.model Require Import BclDoc.
 Import ListNotations.
@@ -80,6 +80,15 @@ Theorem C09_ident_separation : forall c r tail s,
   exists typ, (typ = IDENT \/ typ = BOOL) /\ lexes_to s typ (c :: r) tail.
 Proof. exact relex_ident. Qed.
 Print Assumptions C09_ident_separation.
+
+(* ... with the exact type: BOOL for the spellings true / false, IDENT otherwise (what the lexer does, and what
+   the walker's as_ident undoes where an identifier is expected) *)
+Theorem C09_ident_exact_type : forall c r tail s,
+  ident_start c -> forallb ident_char r = true -> not_extending ident_char tail ->
+  rest s = (c :: r) ++ tail ->
+  lexes_to s (if (list_N_eqb (c :: r) lit_true || list_N_eqb (c :: r) lit_false)%bool then BOOL else IDENT) (c :: r) tail.
+Proof. exact relex_ident_exact. Qed.
+Print Assumptions C09_ident_exact_type.
 
 Theorem C09_int_separation : forall c r tail s,
   number_start c -> forallb is_digit r = true ->
